@@ -311,6 +311,8 @@ def blq_m4(f: float, sd: float, lloq: float) -> float:
     # example "Y = (CUMD - CUMDZ)/(1 - CUMDZ) otherwise"   P(Y < LLOQ | Y > 0)
     cumd = phi((lloq - f) / sd)
     cumdz = phi(-f / sd)
+    if cumdz >= 1.0:
+        return NAN  # P(Y > 0) underflows: undefined
     return (cumd - cumdz) / (1.0 - cumdz)
 
 
